@@ -310,6 +310,10 @@ func (t sut) decrypt(ct, s []byte, combo int) (out []byte, err error, ok bool) {
 		}
 	})
 	t.c.Add("calls_Decrypt", 1)
+	if ok && (!bytes.Equal(cc, ct) || !bytes.Equal(sc, s)) {
+		t.c.Failf("input-modified/Decrypt", "Decrypt overwrote its caller's message or secret buffer (a message must stay decryptable, e.g. to try another secret): message now %+q", string(cc))
+		ok = false
+	}
 	return
 }
 
@@ -403,6 +407,10 @@ func (t sut) gcmDecrypt(ct, s, a []byte, combo int) (out []byte, err error, ok b
 		}
 	})
 	t.c.Add("calls_GCMDecrypt", 1)
+	if ok && (!bytes.Equal(cc, ct) || !bytes.Equal(sc, s) || !bytes.Equal(ac, a)) {
+		t.c.Failf("input-modified/GCMDecrypt", "GCMDecrypt overwrote its caller's message, secret or additional-data buffer (a message must stay decryptable, e.g. to try another secret): message now %+q", string(cc))
+		ok = false
+	}
 	return
 }
 
